@@ -442,6 +442,32 @@ func observe(h *handle) string {
 			return where + fmt.Sprintf("%q ~ m gives %v", k, got)
 		}
 	}
+	// isAvail with several keys (all of them must be present), also more keys than the map
+	// has entries and the same key several times
+	for i := 0; i+2 < len(probe); i += 3 {
+		ks := []string{probe[i], probe[i+1], probe[i], probe[i+2], probe[i]}
+		for n := 2; n <= len(ks); n++ {
+			all := true
+			args := []value.Value{h.m}
+			names := []string{"m"}
+			call := "m.isAvail("
+			for j, k := range ks[:n] {
+				_, has := h.model[k]
+				all = all && has
+				args = append(args, value.String(k))
+				names = append(names, fmt.Sprintf("k%d", j))
+				if j > 0 {
+					call += ","
+				}
+				call += fmt.Sprintf("k%d", j)
+			}
+			call += ")"
+			got := progs.Observe(fn(call, names...).Eval(args...))
+			if got.Err != nil || !ref.Same(ref.Bool(all), got.Val, 0) {
+				return where + fmt.Sprintf("isAvail(%q) gives %v, the single key observers give %v", ks[:n], got, all)
+			}
+		}
+	}
 	got := progs.Observe(fn("m.size()", "m").Eval(h.m))
 	if got.Err != nil || !ref.Same(ref.Int(len(h.model)), got.Val, 0) {
 		return where + fmt.Sprintf("size() gives %v", got)
